@@ -107,27 +107,65 @@ func operandField(m *vmModel, va *evalAnalysis, fn *ssa.Function, v ssa.Value, d
 }
 
 // operatorCaseOf: the operator string of the nearest `node.Operator == "s"` true edge dominating b.
+var operatorCaseCache = map[*ssa.Function]map[*ssa.BasicBlock][]string{}
+
+// operatorCasesOf: the operator strings for which block b is reachable, evaluated outright: every comparison of the function
+// between a string and a string constant is decided as if the operator were s, for each constant s in turn (and once for an
+// operator that equals none of them). `case ">>", "<<":` with an inner `if op == ">>"` is read like two separate cases.
+func operatorCasesOf(b *ssa.BasicBlock) []string {
+	fn := b.Parent()
+	if c, ok := operatorCaseCache[fn]; ok {
+		return c[b]
+	}
+	var atoms []*ssa.BinOp
+	consts := map[string]bool{}
+	for _, bb := range fn.Blocks {
+		for _, in := range bb.Instrs {
+			bo, ok := in.(*ssa.BinOp)
+			if !ok || (bo.Op != token.EQL && bo.Op != token.NEQ) {
+				continue
+			}
+			c, ok := bo.Y.(*ssa.Const)
+			if !ok || c.Value == nil || c.Value.Kind() != constant.String {
+				continue
+			}
+			// the subject is the operator of the node: a load of a string field
+			if u, ok := bo.X.(*ssa.UnOp); ok {
+				if _, ok := u.X.(*ssa.FieldAddr); ok {
+					atoms = append(atoms, bo)
+					consts[constant.StringVal(c.Value)] = true
+				}
+			}
+		}
+	}
+	out := map[*ssa.BasicBlock][]string{}
+	var names []string
+	for s := range consts {
+		names = append(names, s)
+	}
+	sort.Strings(names)
+	for _, s := range names {
+		world := map[ssa.Value]bool{}
+		for _, a := range atoms {
+			eq := constant.StringVal(a.Y.(*ssa.Const).Value) == s
+			if a.Op == token.NEQ {
+				eq = !eq
+			}
+			world[a] = eq
+		}
+		for bb := range worldReach(fn, world) {
+			out[bb] = append(out[bb], s)
+		}
+	}
+	operatorCaseCache[fn] = out
+	return out[b]
+}
+
+// operatorCaseOf: the one operator string under whose case block b stands ("" when it stands under none or under several).
 func operatorCaseOf(b *ssa.BasicBlock) string {
-	for d := b; d != nil; d = d.Idom() {
-		id := d.Idom()
-		if id == nil {
-			return ""
-		}
-		iff, ok := id.Instrs[len(id.Instrs)-1].(*ssa.If)
-		if !ok {
-			continue
-		}
-		bo, ok := iff.Cond.(*ssa.BinOp)
-		if !ok || bo.Op != token.EQL {
-			continue
-		}
-		c, ok := bo.Y.(*ssa.Const)
-		if !ok || c.Value == nil || c.Value.Kind() != constant.String {
-			continue
-		}
-		if id.Succs[0] == d || id.Succs[0].Dominates(d) {
-			return constant.StringVal(c.Value)
-		}
+	cs := operatorCasesOf(b)
+	if len(cs) == 1 {
+		return cs[0]
 	}
 	return ""
 }
@@ -299,6 +337,8 @@ func checkC05(p *Program, r *Report) {
 	wrapperKindsAgree(p, r, m, "C05.R6")
 	c05NoIdentityShortcut(p, r, m)
 	c05UnaryStaysInteger(p, r, m)
+	r.Explain("R10 the integer converters read a value of an integer kind with the exact accessors: for each integer kind, with the function's kind tests decided, no float conversion and no float-valued helper is reachable.")
+	c05IntegersReadExactly(p, r, m)
 	c05KindSwitchComplete(p, r, m)
 	accessorKindAgreement(p, r, m, "C05.R8")
 }
@@ -944,6 +984,30 @@ func c05NoIdentityShortcut(p *Program, r *Report, m *vmModel) {
 				}
 				continue
 			}
+			// a constant as the result of an operator (a boxed literal 0, "" …): a shortcut that replaces the computation; like the
+			// identity shortcut below it is sound only for one exact value of an operand, not under an order test or a disjunction
+			if last != nil && !errSet && boxedConstant(last.Val) && ea != nil {
+				ret := b.Instrs[len(b.Instrs)-1]
+				if st := ea.before[h][ret]; st != nil && st.cell == eNil {
+					k++
+					exactK := false
+					for d := b; d != nil && d.Idom() != nil; d = d.Idom() {
+						id := d.Idom()
+						if iff, ok := id.Instrs[len(id.Instrs)-1].(*ssa.If); ok {
+							if bo, ok := iff.Cond.(*ssa.BinOp); ok {
+								_, isK := bo.Y.(*ssa.Const)
+								bt, isNum := bo.X.Type().(*types.Basic)
+								if isK && isNum && bt.Info()&types.IsNumeric != 0 && ((bo.Op == token.EQL && edgeOnly(id, 0, d)) || (bo.Op == token.NEQ && edgeOnly(id, 1, d))) {
+									exactK = true
+								}
+							}
+						}
+					}
+					r.Check(exactK, "C05.R7", fmt.Sprintf("%s|constant result #%d only for one exact operand value", kind, k), p.Pos(instrPos(last)), "under an equality test of an operand's numeric reading with a constant",
+						"the handler returns a constant as the result of the operator without computing it, and not under a plain equality test of an operand with a constant: a shortcut chosen by an order test or a disjunction also covers values for which Go's operator gives something else (-8 >> 64 is -1, not 0)")
+					continue
+				}
+			}
 			if last == nil || errSet || !isOperand(last.Val, 0) {
 				continue
 			}
@@ -1137,4 +1201,98 @@ func evaluatedBefore(va *evalAnalysis, h *ssa.Function, b *ssa.BasicBlock) bool 
 		return false
 	}
 	return !reachable(h.Blocks[0], func(x *ssa.BasicBlock) bool { return evalBlocks[x] })[b]
+}
+
+// c05IntegersReadExactly (R10): the integer converters (reflect.Value -> int64 / int) read a value of an integer kind with the
+// exact accessors (Int, Uint): evaluated outright for each signed and unsigned integer kind, with the function's own kind
+// tests decided, nothing that goes through a float is reachable — no conversion of a float to an integer, no call of a
+// float-valued function of the package. A detour through float64 is exact only up to 2^53: a host int or uint64 beyond that
+// would come back as a neighbouring number, and with it every integer operator and the integer comparison.
+func c05IntegersReadExactly(p *Program, r *Report, m *vmModel) {
+	n := 0
+	for _, fn := range m.fns {
+		sg := fn.Signature
+		if sg.Recv() != nil || sg.Params().Len() != 1 || sg.Results().Len() != 2 || !isReflectValue(sg.Params().At(0).Type()) || !isErrorType(sg.Results().At(1).Type()) || len(fn.Blocks) == 0 {
+			continue
+		}
+		bt, ok := sg.Results().At(0).Type().(*types.Basic)
+		if !ok || bt.Info()&types.IsInteger == 0 {
+			continue
+		}
+		var atoms []*ssa.BinOp
+		for _, b := range fn.Blocks {
+			for _, in := range b.Instrs {
+				if bo, ok := in.(*ssa.BinOp); ok && (bo.Op == token.EQL || bo.Op == token.NEQ) {
+					if kc, ok := bo.X.(*ssa.Call); ok && reflectMethod(kc) == "Kind" {
+						if _, ok := bo.Y.(*ssa.Const); ok {
+							atoms = append(atoms, bo)
+						}
+					}
+				}
+			}
+		}
+		if len(atoms) == 0 {
+			continue
+		}
+		var bad []string
+		where := fn.Pos()
+		for K := int64(2); K <= 11; K++ {
+			world := map[ssa.Value]bool{}
+			for _, a := range atoms {
+				eq := a.Y.(*ssa.Const).Int64() == K
+				if a.Op == token.NEQ {
+					eq = !eq
+				}
+				world[a] = eq
+			}
+			reach := worldReach(fn, world)
+			hit := false
+			for _, b := range fn.Blocks {
+				if !reach[b] {
+					continue
+				}
+				for _, in := range b.Instrs {
+					switch x := in.(type) {
+					case *ssa.Convert:
+						if fb, ok := x.X.Type().Underlying().(*types.Basic); ok && fb.Info()&types.IsFloat != 0 {
+							hit, where = true, x.Pos()
+						}
+					case *ssa.Call:
+						if callee := staticCallee(x); callee != nil && callee.Pkg == m.sp && callee.Signature.Results().Len() > 0 {
+							if fb, ok := callee.Signature.Results().At(0).Type().Underlying().(*types.Basic); ok && fb.Info()&types.IsFloat != 0 {
+								hit, where = true, x.Pos()
+							}
+						}
+						if reflectMethod(x) == "Float" {
+							hit, where = true, x.Pos()
+						}
+					}
+				}
+			}
+			if hit {
+				bad = append(bad, kindName(K))
+			}
+		}
+		n++
+		r.Check(len(bad) == 0, "C05.R10", fn.Name()+"|integer kinds read without a float", p.Pos(where), "for every integer kind only the exact accessors are reachable",
+			fmt.Sprintf("a value of kind %v is read through a float: exact only up to 2^53, beyond that the integer operators and == work on a neighbouring number", bad))
+	}
+	r.Floor("C05.R10", n, 2)
+}
+
+// boxedConstant: v is a constant put into a reflect.Value by one of the package's boxing helpers or reflect.ValueOf / Zero.
+func boxedConstant(v ssa.Value) bool {
+	c, ok := v.(*ssa.Call)
+	if !ok || len(c.Call.Args) != 1 {
+		return false
+	}
+	a := c.Call.Args[0]
+	if mi, ok := a.(*ssa.MakeInterface); ok {
+		a = mi.X
+	}
+	if cv, ok := a.(*ssa.Convert); ok {
+		a = cv.X
+	}
+	_, isConst := a.(*ssa.Const)
+	return isConst && isReflectValue(c.Type())
 }
